@@ -69,6 +69,23 @@ CLAIMS['C12'] = dict(
     note='Trusted: futures_util::lock::Mutex, cachemap2::CacheMap (insert-only, stable slots), rustc MIR of coroutines before the state transform. dyn calls are over-approximated by method name.',
     ref='DESIGN.md §3 C12')
 
+CLAIMS['C13'] = dict(
+    technique='unordered-iteration lint with consumer classification, shared-write classification, who-may-call on ambient nondeterminism sources',
+    text='Static order lint: every call in the processing crates that observes HashMap/HashSet iteration order is followed through iterator adaptors to its consumer, which must be order-insensitive '
+         '(another hash/BTree collection, a sort before use, any/all/count/min/max) or reviewed; every mutation of Mutex-protected state shared by the concurrently polled per-thread futures must be commutative or keyed injectively; '
+         'per-thread results are joined positionally (join_all; no completion-ordered collectors); no clock, RNG, thread identity or address-derived value appears in processing code. Three genuine order dependences found this way '
+         '(proc_limits array, CFI alias rules, evil-JSON cert inversion) were repaired in /repo; one (symbol stats keyed by leaf name) is a recorded known finding. Byte identity of reports is not compared.',
+    note='Trusted: serde_json::Map is a BTreeMap (preserve_order off), BTree/Vec iteration is deterministic, the executor. One reviewed table entry (CpuContext::valid_registers over a validity set) backed by a who-may-call rule.',
+    ref='DESIGN.md §3 C13')
+CLAIMS['C16'] = dict(
+    technique='dominance (commit only after parse Ok / end of body), who-may-call on file-creating and temp-file-writing APIs, path-sensitive cascade condition',
+    text='Cache atomicity as facts about every CFG path, hence every interruption point: commit_cache_file is called only from fetch_symbol_file, only after the Ok edge of parse_async and only with a live temp file; '
+         'persist_noclobber happens only after the end-of-body edge of the download loop; files are created only through NamedTempFile::new_in(tmp) (no clobbering / keeping / renaming APIs anywhere in the crate); the temp file is written only by the data callback '
+         '(exactly the bytes it was handed; a failed write drops the temp file), by the INFO URL trailer that dominates the persist, and by the raw chunk loop; the local lookup dominates every download and only Err(NotFound) cascades; '
+         'the INFO URL line round-trips into SymbolFile.url. RAII deletion of NamedTempFile on drop/cancellation and the atomicity of persist_noclobber are trusted.',
+    note='Trusted: tempfile (delete on drop, atomic persist_noclobber), reqwest, the file system. That the callback receives exactly the consumed bytes is C10.1.',
+    ref='DESIGN.md §3 C16')
+
 NOT_YET = {}
 NA = {
     'C14': 'every clause relates values of the result to values of the dump (which thread, which context, which address after masking); no clause has a structural form that would not also fire on behaviour-preserving rewrites, so static analysis does not apply; its panic-freedom is covered under C03',
